@@ -6,6 +6,7 @@
    the hypothesis  p_global_skip P = true \/ no_starvation P h ; the *_every_history form is the code as it is. *)
 From Coq Require Import List ZArith Bool Arith.
 From Shampoo Require Import Dist DistProofs DistSchedProofs DistRepaired DistWitness DistChecker.
+From Shampoo Require Scalar Optimizer Compose ComposeProofs.
 Import ListNotations.
 
 (* With any communication dtype every rank equals the single-process optimizer whose per-step communicated quantity
@@ -184,3 +185,32 @@ Theorem C06_checker_sound :
   forall gs ref o, C06_checkb gs ref o = true -> C06_spec gs ref o.
 Proof. exact C06_checkb_sound. Qed.
 Print Assumptions C06_checker_sound.
+
+(* ---- composition with C01 (Compose.v): the per-block computation instantiated with the optimizer model -------------
+   Dist.v's single-process optimizer with p_upd := Optimizer.block_step is the iteration of Optimizer.group_step ... *)
+Theorem C06_serial_is_group_step_iteration :
+  forall F (Op : Scalar.ops F) (c : Optimizer.cfg (F:=F)) (dims : nat -> list nat) world gs nb owner nbytes
+         (hs : list (Optimizer.hints (F:=F) * entry (Compose.ograd (F:=F)))) s,
+    Forall (fun p => Compose.uniform (fst p) (snd p)) hs ->
+    Compose.model_run Op c (map (fun p => (fst p, Compose.abs_ins nb (snd p))) hs) (sstepc s) (Compose.abs_blocks dims nb s)
+    = (sstepc (serial_run (Compose.optP Op c dims world gs nb owner nbytes) (fun v => v) (map snd hs) s),
+       Compose.abs_blocks dims nb (serial_run (Compose.optP Op c dims world gs nb owner nbytes) (fun v => v) (map snd hs) s)).
+Proof. exact @ComposeProofs.serial_run_is_model_run. Qed.
+Print Assumptions C06_serial_is_group_step_iteration.
+
+(* ... hence, for every world size, group size, assignment and history (absent gradients and starving ranks included),
+   every rank of the DDP cluster holds the parameters that iterating the documented update rule (C01) produces. *)
+Theorem C06_ddp_cluster_follows_update_rule :
+  forall F (Op : Scalar.ops F) (c : Optimizer.cfg (F:=F)) (dims : nat -> list nat) world gs nb owner nbytes
+         (hs : list (Optimizer.hints (F:=F) * entry (Compose.ograd (F:=F)))) v0 st0 b0,
+    wf_config (Compose.optP Op c dims world gs nb owner nbytes) ->
+    Forall (fun p => Compose.uniform (fst p) (snd p)) hs ->
+    exists cl, ddp_run (Compose.optP Op c dims world gs nb owner nbytes) (map snd hs)
+                       (init_cluster (Compose.optP Op c dims world gs nb owner nbytes) v0 st0 b0) = Some cl /\
+      forall r, r < world ->
+        tab nb (fun b => nth b (vals (cget cl r)) [])
+        = map (Optimizer.b_w (F:=F))
+              (snd (Compose.model_run Op c (map (fun p => (fst p, Compose.abs_ins nb (snd p))) hs) 0%Z
+                                      (Compose.abs_blocks dims nb (mkS v0 st0 0%Z)))).
+Proof. exact @ComposeProofs.ddp_cluster_follows_update_rule. Qed.
+Print Assumptions C06_ddp_cluster_follows_update_rule.
